@@ -34,6 +34,10 @@ type cgConfig struct {
 	// Late: the last route of the table is registered by an extra action of the alphabet ("register"), enabled once, at any
 	// point of the history; both routers (caching and twin) are judged against the table registered so far
 	Late bool `json:"late_registration,omitempty"`
+	// Sibling: a second router is built from THE SAME option values (one options slice, used twice) with the table in
+	// reverse order; it is served every request right before the router under test (routers must not share anything
+	// through the options they were built from)
+	Sibling bool `json:"sibling_router_from_same_option_values,omitempty"`
 }
 
 var cgTables = [][]refmodel.RouteDef{
@@ -51,11 +55,16 @@ var cgTables = [][]refmodel.RouteDef{
 	{{Path: "/{x}/{y}", Methods: []string{"GET", "DELETE"}}, {Path: "/a/{x}", Methods: []string{"GET", "POST"}}},
 	// dynamic routes without any variable (an optional part only), next to an ordinary one
 	{{Path: "/about[.html]", Methods: []string{"GET"}}, {Path: "/docs/index[.html]", Methods: []string{"GET", "POST"}}, {Path: "/a/{x}", Methods: []string{"GET"}}},
+	// a fallback route for ONE method only
+	{{Path: "/*", Methods: []string{"GET"}}, {Path: "/a/{x}", Methods: []string{"POST"}}},
+	// StrictLastSlash: a route that ends in '/' next to the same route without it
+	{{Path: "/a/{x}/", Methods: []string{"GET"}}, {Path: "/a/{x}", Methods: []string{"GET", "POST"}}},
 }
 
 // requests added to the alphabet for one table only
 var cgTableRequests = map[int][]cgReq{
 	10: {{"GET", "/about"}, {"GET", "/about.html"}, {"POST", "/docs/index.html"}, {"HEAD", "/docs/index.html"}},
+	11: {{"HEAD", "/zz/y/x"}, {"POST", "/zz/y/x"}, {"DELETE", "/zz/y/x"}},
 }
 
 var cgRequests = []cgReq{
@@ -191,6 +200,9 @@ func cacheGraphRun(c cgConfig, reqs []cgReq, mode string, fullDepth int, st *fw.
 	if c.Late {
 		cfg += "; the last route is registered by the action 'register' of the history"
 	}
+	if c.Sibling {
+		cfg += "; a sibling router built from the same option values (table reversed) is served every request first"
+	}
 	// the non-caching twin is stateless: one expected observation per request and phase
 	var exp [2][]string
 	for ph := 0; ph < 2; ph++ {
@@ -220,9 +232,26 @@ func cacheGraphRun(c cgConfig, reqs []cgReq, mode string, fullDepth int, st *fw.
 		}
 		return 0
 	}
+	var sib *rux.Router
+	recSib := &hitRec{}
 	build := func(h []int) (*rux.Router, *hitRec) {
 		rec := &hitRec{}
-		r, pv := cgBuildN(defs, nEarly, c, true, rec)
+		var r *rux.Router
+		var pv any
+		if c.Sibling {
+			// one options slice, two routers
+			shared := cgOpts(c, true)
+			r, pv = buildRouterFull(defs[:nEarly], nil, true, rec, shared...)
+			rev := make([]refmodel.RouteDef, 0, nEarly)
+			for i := nEarly - 1; i >= 0; i-- {
+				rev = append(rev, defs[i])
+			}
+			if pv == nil {
+				sib, pv = buildRouterFull(rev, nil, false, recSib, shared...)
+			}
+		} else {
+			r, pv = cgBuildN(defs, nEarly, c, true, rec)
+		}
 		if pv != nil {
 			panic(pv)
 		}
@@ -232,6 +261,9 @@ func cacheGraphRun(c cgConfig, reqs []cgReq, mode string, fullDepth int, st *fw.
 					panic(pv)
 				}
 				continue
+			}
+			if sib != nil {
+				cgObserve(sib, recSib, reqs[qi])
 			}
 			cgObserve(r, rec, reqs[qi])
 		}
@@ -294,6 +326,9 @@ func cacheGraphRun(c cgConfig, reqs []cgReq, mode string, fullDepth int, st *fw.
 		for qi, q := range reqs {
 			r, rec := build(h)
 			pre, preKeys, _, _, _ := snap(r, ph)
+			if sib != nil {
+				cgObserve(sib, recSib, q)
+			}
 			got := cgObserve(r, rec, q)
 			post, keys, vals, ll, ml := snap(r, ph)
 			st.Transitions++
@@ -454,6 +489,10 @@ func cgGen(tier string, emit func(cgConfig, bool)) {
 				}
 				emit(cgConfig{Table: t, NotAllowed: o&1 != 0, Fallback: o&2 != 0, Strict: o&4 != 0, Cap: c, OptStyle: (t + o + c) % 4}, tier == "thorough")
 			}
+			// the same graph next to a sibling router built from the same option values
+			if (t+o)%2 == 0 || tier == "thorough" {
+				emit(cgConfig{Table: t, NotAllowed: o&1 != 0, Fallback: o&2 != 0, Strict: o&4 != 0, Cap: 2, OptStyle: (t + o) % 3, Sibling: true}, tier == "thorough")
+			}
 			// the same graph with the registration of the last route as one more action of the alphabet
 			for _, c := range map[string][]int{"quick": {2}, "thorough": {1, 3}}[tier] {
 				emit(cgConfig{Table: t, NotAllowed: o&1 != 0, Fallback: o&2 != 0, Strict: o&4 != 0, Cap: c, OptStyle: (t + o + c) % 4, Late: true}, tier == "thorough")
@@ -484,8 +523,8 @@ var c07Spec = fw.Spec[c07Case]{
 	ID:         "C07",
 	Level:      "model_checking",
 	StateGraph: true,
-	Rule: "explicit-state search to fix-point per configuration (11 route tables x {HandleMethodNotAllowed} x {HandleFallbackRoute} x {StrictLastSlash} x capacities 0..3(4)): state = cache content in recency order with route and params per entry (verif hook); " +
-		"all histories of length <=2 (thorough 3) without state merging, then every reachable state x every request of the alphabet (13 / 16 requests: hits, misses, evictions, HEAD->GET, 405 probes, fallback, 404) executed on the real caching router via Match and ServeHTTP and compared with the non-caching twin; for capacity 2 (thorough 1 and 3) the graph is explored again with the registration of the table's last route as one more action, enabled once at any point; plus pairs of request paths of every length 10..309 bytes that differ only in their last 1-3 bytes, requested alternately under four methods; non-trivial = newly reached distinct cache state",
+	Rule: "explicit-state search to fix-point per configuration (13 route tables x {HandleMethodNotAllowed} x {HandleFallbackRoute} x {StrictLastSlash} x capacities 0..3(4)): state = cache content in recency order with route and params per entry (verif hook); " +
+		"all histories of length <=2 (thorough 3) without state merging, then every reachable state x every request of the alphabet (13 / 16 requests: hits, misses, evictions, HEAD->GET, 405 probes, fallback, 404) executed on the real caching router via Match and ServeHTTP and compared with the non-caching twin; for capacity 2 also next to a sibling router built from the very same option values; for capacity 2 (thorough 1 and 3) the graph is explored again with the registration of the table's last route as one more action, enabled once at any point; plus pairs of request paths of every length 10..309 bytes that differ only in their last 1-3 bytes, requested alternately under four methods; non-trivial = newly reached distinct cache state",
 	Assume: []string{
 		"canonical state = cache content only: tables and options are frozen after registration and contexts are reset per request (C10)",
 		"successor = replay of the shortest history on a fresh router plus one request",
